@@ -22,10 +22,10 @@ type c13Case struct {
 	Blocks [][]TxSpec `json:"blocks"`
 }
 
-var c13Alphabet = []TxKind{KTransfer, KLog1, KLog2, KLogRevert, KCreateOK, KCreateFail, KIntrinsicLow, KValueTooHigh, KBurn, KBadNonce, KCosmosSend}
+var c13Alphabet = []TxKind{KTransfer, KLog1, KLog2, KLogRevert, KCreateOK, KCreateFail, KIntrinsicLow, KValueTooHigh, KBurn, KBadNonce, KCosmosSend, KErc20Transfer, KCreateValueHigh}
 
 func c13World(maxGas int64) *world.World {
-	return world.New(world.Config{MaxGas: maxGas, NumWallets: 5, Contracts: StdContracts()})
+	return world.New(world.Config{MaxGas: maxGas, NumWallets: 5, Contracts: StdContracts(), DeployErc20: true})
 }
 
 // c13Build assigns senders (wallet = position, so that every tx has nonce = number of earlier admitted txs of
